@@ -565,7 +565,7 @@ def k5(prog, rep):
     okr = len(steps) == 5
     for sN, (m1, sh_, m2) in zip(steps, exp):
         X = ("v", r.params[0]["name"], r.params[0]["id"])
-        w = ("|", (">>", ("&", X, ("c", m1)), ("c", sh_)), ("<<", ("&", X, ("c", m2)), ("c", sh_)))
+        w = ir.B("|", (">>", ir.B("&", X, ("c", m1)), ("c", sh_)), ("<<", ir.B("&", X, ("c", m2)), ("c", sh_)))
         okr = okr and sN == w
     rep.check(okr, "K5-crc", "reverse() is the 32-bit bit reversal (five swap stages)", r.loc, "", function="reverse", construct="reverse")
     inf = u.func("init")
